@@ -201,7 +201,113 @@ def w_sim(cfg, tier):
     return col.result()
 
 
+REAL_CANDIDATES = [
+    ('Toric2DCode(2,2)', (1 / 3, 1 / 3, 1 / 3, None, None), 'MatchingDecoder'),
+    ('Toric2DCode(2,2)', (0.1, 0.1, 0.8, None, None), 'MatchingDecoder'),
+    ('Toric2DCode(2,2)', (0.1, 0.1, 0.8, 'XZZX', None), 'MatchingDecoder'),
+    ('Toric2DCode(2,2)', (0.1, 0.1, 0.8, 'XZZX', {'deformation_axis': 'x'}), 'BeliefPropagationOSDDecoder'),
+    ('Toric2DCode(2,2)', (0.1, 0.1, 0.8, 'XZZX', {'deformation_axis': 'x'}), 'MatchingDecoder'),
+    ('Toric2DCode(2,3)', (0.1, 0.1, 0.8, None, None), 'BeliefPropagationOSDDecoder'),
+    ('Planar2DCode(2,2)', (0.05, 0.05, 0.9, None, None), 'MatchingDecoder'),
+    ('Planar2DCode(2,2)/XZZX/x', (0.1, 0.1, 0.8, 'XZZX', {'deformation_axis': 'x'}), 'BeliefPropagationOSDDecoder'),
+    ('RotatedPlanar2DCode(3,3)', (1.0, 0.0, 0.0, None, None), 'MatchingDecoder'),
+]
+
+
+_SHARED_CODES: dict = {}
+
+
+def real_run(i, n_trials=12, rate=0.3, seed=7, share=False):
+    """One real DirectSimulation (real classes, real engines) for candidate i; returns its results as JSON.
+    share=True: simulations on the same code configuration use ONE code object (as a user script does)."""
+    import panqec.decoders as pd_
+    from panqec.error_models import PauliErrorModel
+    from panqec.simulation import DirectSimulation
+    cfg, (rx, ry, rz, dn, dk), dname = REAL_CANDIDATES[i]
+    if share:
+        code = _SHARED_CODES.setdefault(cfg, common.make_code(cfg))
+    else:
+        code = common.make_code(cfg)
+    em = PauliErrorModel(rx, ry, rz, deformation_name=dn, deformation_kwargs=dk)
+    dec = getattr(pd_, dname)(code, em, rate)
+    sim = DirectSimulation(code, em, dec, rate, rng=np.random.default_rng(seed), verbose=False)
+    sim.run(n_trials)
+    res = dict(sim.results)
+    res.update(sim.get_results())
+    return json.dumps({k_: (np.asarray(v).tolist() if isinstance(v, (list, np.ndarray)) else
+                            (float(v) if isinstance(v, (float, np.floating)) else v))
+                       for k_, v in res.items() if k_ != 'wall_time'}, sort_keys=True, default=str)
+
+
+def trial_consistency(i, blob):
+    """Per-trial relations of the property, recomputed from the recorded error of every trial."""
+    cfg = REAL_CANDIDATES[i][0]
+    code = common.make_code(cfg)
+    res = json.loads(blob)
+    n_runs = len(res['success'])
+    out = []
+    for key in ('effective_error', 'codespace', 'success'):
+        if len(res[key]) != n_runs:
+            out.append(f'{key} has {len(res[key])} entries, n_runs {n_runs}')
+    fails = sum(1 for s_ in res['success'] if not s_)
+    for t in range(n_runs):
+        if bool(res['success'][t]) != (bool(res['codespace'][t]) and not any(res['effective_error'][t])):
+            out.append(f'trial {t}: success {res["success"][t]} codespace {res["codespace"][t]} effective '
+                       f'{res["effective_error"][t]}')
+    if 'p_est' in res and n_runs and abs(res['p_est'] - fails / n_runs) > 1e-12:
+        out.append(f'p_est {res["p_est"]} != {fails}/{n_runs}')
+    return out
+
+
+def w_real(cfg, tier):
+    """cfg = 'real': the real DirectSimulation, real classes and engines.  The solver chooses (realised)
+    which simulation runs FIRST in the process and which SECOND (same seed); the second's results must be
+    bit-for-bit those of the same simulation alone in a fresh process, and satisfy the per-trial relations."""
+    from panqec.simulation import DirectSimulation
+    col = hz.Collector(cfg)
+    col.encoded(DirectSimulation._run, DirectSimulation.get_results)
+    m = len(REAL_CANDIDATES)
+    alone = [hz.in_forked_child(lambda i=i: real_run(i)) for i in range(m)]
+    again = [hz.in_forked_child(lambda i=i: real_run(i)) for i in range(m)]
+    for i in range(m):
+        col.record('C11/real/same-seed-same-results-in-two-processes', 'unsat' if alone[i] == again[i] else 'sat', 0,
+                   False, dict(real=True, second=i, first=None) if alone[i] != again[i] else None, REAL_CANDIDATES[i][0])
+        bad = trial_consistency(i, alone[i])
+        col.record('C11/real/per-trial-relations', 'sat' if bad else 'unsat', 0, False,
+                   dict(real=True, second=i, first=None, relations=bad[:3]) if bad else None, REAL_CANDIDATES[i][0])
+    eng = Engine(name=cfg, max_paths=5000)
+    with eng:
+        a, b = eng.integer('first', 0, m - 1), eng.integer('second', 0, m - 1)
+
+        def fn():
+            i, j = int(a), int(b)
+
+            def history():
+                real_run(i, share=True)
+                return real_run(j, share=True)
+            return i, j, hz.in_forked_child(history)
+        ps = eng.explore(fn)
+    col.absorb(eng)
+    bad, w = [], [None]
+    for p in ps:
+        if p.exc is not None:
+            bad.append(z3_and(p.pc))
+            w[0] = w[0] or dict(real=True, exception=f'{type(p.exc).__name__}: {p.exc}')
+            continue
+        i, j, blob = p.value
+        diff = blob != alone[j]
+        bad.append(z3_and(p.pc + [z3.BoolVal(diff)]))
+        if diff and (w[0] is None or 'first' not in w[0]):
+            w[0] = dict(real=True, first=i, second=j)
+    col.prove('C11/real/results-do-not-depend-on-what-ran-before-in-the-process', eng.base, z3_or(bad), lambda mo: w[0],
+              f'{len(ps)} realised ordered pairs of real simulations (12 trials each, seed 7), one forked process per pair; '
+              'compared with the second simulation alone in a fresh process, bit for bit')
+    return col.result()
+
+
 def worker(cfg, tier='quick'):
+    if cfg.startswith('real'):
+        return w_real(cfg, tier)
     return {'once': w_once, 'sim': w_sim}[cfg.split()[0]](cfg, tier)
 
 
@@ -210,6 +316,24 @@ def replay(path):
     with open(path) as f:
         d = json.load(f)
     w, oid, cfg = d['witness'], d['oid'], d['config']
+    if w.get('real'):
+        bad = False
+        if 'second' in w:
+            j = w['second']
+            alone = hz.in_forked_child(lambda: real_run(j))
+            if w.get('first') is not None:
+                real_run(w['first'], share=True)
+            got = real_run(j, share=True)
+            bad = got != alone or bool(trial_consistency(j, got)) if 'relations' in w or w.get('first') is None \
+                else got != alone
+            print('first', w.get('first'), 'second', j, 'differs from the fresh-process run:', got != alone,
+                  'relations:', trial_consistency(j, got)[:2])
+        else:
+            print(w.get('exception'))
+            res = worker(cfg)
+            bad = any(o['oid'] == oid and o['verdict'] == 'sat' for o in res['obs'])
+        print('REPLAY', 'reproduced' if bad else 'not-reproduced', oid, cfg)
+        return 0
     code = common.make_code(cfg.split(' ')[1])
     n = code.n
     bad = False
@@ -292,6 +416,7 @@ def configs(tier):
     if tier != 'quick':
         once = common.code_configs('quick', deformed=True, max_n=60)
     out = [f'once {c}' for c in once]
+    out += ['real']
     out += ['sim RotatedPlanar2DCode(2,2) kmax=2', 'sim Toric2DCode(2,2) kmax=2'] if tier == 'quick' else \
         ['sim RotatedPlanar2DCode(2,2) kmax=3', 'sim Toric2DCode(2,2) kmax=3', 'sim Planar2DCode(2,2)/XY kmax=3']
     return out
